@@ -453,6 +453,10 @@ func init() {
 					if got, f := c19Overlap(sp.Cached, sp.Children, sp.Flushes, sp.Held); f != "" {
 						ctx.Fail("every_flush_reaches_every_child_once", f, sp, got)
 					}
+				case "child-listed-twice":
+					if f := c19Dup(sp.Pos); f != "" {
+						ctx.Fail("every_child_sees_every_call_once_in_order", f, sp, nil)
+					}
 				case "capabilities-evaluated-concurrently":
 					for k := 0; k < 5; k++ {
 						if f := c19Caps(sp.Cached, sp.Pos, sp.After); f != "" {
@@ -487,6 +491,14 @@ func init() {
 			cs := map[string]interface{}{"stream": "child-panics-then-more-calls", "children": nk, "panicking_child": bad, "gauge": gauge}
 			ctx.Case(cs, "", "child-panics-then-more-calls", "")
 			if f := c19AfterPanic(nk, bad, gauge); f != "" {
+				ctx.Fail("every_child_sees_every_call_once_in_order", f, cs, nil)
+			}
+		}
+		// one reporter listed twice, children that are equal values
+		for k := 0; k < 3; k++ {
+			cs := map[string]interface{}{"stream": "child-listed-twice", "incapable_child": k}
+			ctx.Case(cs, "", "child-listed-twice", "")
+			if f := c19Dup(k); f != "" {
 				ctx.Fail("every_child_sees_every_call_once_in_order", f, cs, nil)
 			}
 		}
